@@ -407,34 +407,43 @@ def shard_src(rows):
 
 def key_of(r):
     """structural key of a cell.  Operator (+) operator cells additionally carry the runtime class of the right operand,
-    the method the call dispatches to (`impl`: the class whose __add__ / mul (+ _mul_matrix) / matmul runs) and how the left
-    operand was produced (`left`: direct constructor, or the collapsed structure of a composite made by a public method)"""
+    the method the call dispatches to (`impl`: the class whose __add__ / mul / matmul runs, `impl2`: its _mul_matrix /
+    rmatmul) and how the left operand was produced (`left`: direct constructor, or the collapsed structure of a
+    composite made by a public method)"""
     case = r["case"]
     k = {"class": r["cls"], "op": case["op"], "shape_class": case["kind"]}
     if case["op"] in c19_pairs.PAIR_OPS:
-        k.update({"rhs_class": r.get("rhs_cls"), "impl": r.get("impl_of"), "left": r.get("left", "direct")})
+        im = r.get("impl_of") or ["", ""]
+        k.update({"rhs_class": r.get("rhs_cls"), "impl": im[0], "impl2": im[1], "left": r.get("left", "direct")})
     return k
 
 
-def impl_of(op, o):
-    """the method Python dispatches the operation to, as `DefiningClass.method`"""
-    t = type(op)
+ADD_LIKE = ("add_op", "sub_op", "torch_add", "torch_sub", "radd", "rsub", "torch_add_t", "torch_sub_t", "torch_add_rt",
+            "torch_sub_rt")
+MUL_LIKE = ("mul_op", "torch_mul", "rmul", "torch_mul_t", "torch_mul_rt")
+MATMUL_LIKE = ("matmul_op", "torch_matmul", "rmatmul_dunder", "torch_matmul_rt")
+
+
+def impl_of(op, o, R=None):
+    """[impl, impl2]: the methods Python dispatches the operation to, as `DefiningClass.method`.  torch.<fn>(L, R) with
+    type(R) a proper subclass of type(L) is dispatched to R's __torch_function__, which calls the reflected method of R
+    (`flipped:`)."""
+    t, pre = type(op), ""
+    if R is not None and o.startswith("torch_") and type(R) is not t and issubclass(type(R), t):
+        t, pre = type(R), "flipped:"
 
     def q(name):
         f = getattr(t, name, None)
-        return getattr(f, "__qualname__", name)
-    if o in ("add_op", "sub_op", "torch_add", "torch_sub", "radd", "rsub", "torch_add_t", "torch_sub_t", "torch_add_rt",
-             "torch_sub_rt"):
-        return q("__add__")
-    if o in ("mul_op", "torch_mul", "rmul", "torch_mul_t", "torch_mul_rt"):
-        return q("mul") + "/" + q("_mul_matrix")
-    if o in ("matmul_op", "torch_matmul"):
-        return q("matmul")
-    if o in ("rmatmul_dunder", "torch_matmul_rt"):
-        return q("rmatmul") + "/" + q("matmul")
+        return pre + getattr(f, "__qualname__", name)
+    if o in ADD_LIKE:
+        return [q("__add__"), ""]
+    if o in MUL_LIKE:
+        return [q("mul"), q("_mul_matrix")]
+    if o in MATMUL_LIKE:
+        return [q("matmul"), q("rmatmul")]
     if o == "add_low_rank":
-        return q("add_low_rank")
-    return o
+        return [q("add_low_rank"), ""]
+    return [o, ""]
 
 
 def collapsed_signature(op):
@@ -520,23 +529,24 @@ def run_unit(args):
             if derive is not None:
                 case = dict(case, derive=derive)
             try:
-                impl, ref, rcls = c19_pairs.execute_pair(L, DL, case, attempt)
-            except Exception as ex:                           # the right operand could not be built: not a case
+                impl, ref, rcls = c19_pairs.execute_pair(L, DL, case, c19_pairs.attempt_shape)
+            except Exception:                           # the right operand could not be built: not a case
                 continue
             recs.append({"tag": tag, "expr": e, "cls": cn, "shape": list(DL.shape), "case": case, "impl": impl, "torch": ref,
-                         "rhs_cls": rcls, "impl_of": impl_of(L, case["op"]), "left": left})
+                         "rhs_cls": rcls[0], "impl_of": impl_of(L, case["op"], rcls[1]), "left": left})
     B = sh[:-2]
     sq = sh[-1] == sh[-2]
     if not (quick and B and not sq):                          # quick: rectangular batched lefts only in the tensor grid
         prng = random.Random("%d-pairs-%s" % (seed, tag))
-        pairs(op, D, c19_pairs.pair_cases(sh, seed, ob.ALL) + c19_pairs.reflected_cases(sh, prng), "direct", None)
+        pairs(op, D, c19_pairs.pair_cases(sh, seed, ob.ALL, "quick" if quick else "full") + c19_pairs.reflected_cases(sh, prng),
+              "direct", None)
     for name in dnames:
         darg = c19_pairs.derive_arg(name, sh, _derive_rng(seed, tag, name))
         try:
             L, DL = c19_pairs.derive(name, op, D, darg)
         except Exception:
             continue
-        pairs(L, DL, c19_pairs.pair_cases(list(DL.shape), seed, ob.ALL, reduced=True), collapsed_signature(L),
+        pairs(L, DL, c19_pairs.pair_cases(list(DL.shape), seed, ob.ALL, "derived"), collapsed_signature(L),
               {"name": name, "arg": darg})
     return recs
 
@@ -773,8 +783,8 @@ def replay(rp):
         if case.get("derive"):
             print("left operand: %s applied to %s" % (case["derive"]["name"], type(op).__name__))
             op, D = c19_pairs.derive(case["derive"]["name"], op, D, case["derive"]["arg"])
-        impl, ref, rcls = c19_pairs.execute_pair(op, D, case, attempt)
-        print("right operand class:", rcls, "dispatches to:", impl_of(op, case["op"]))
+        impl, ref, rcls = c19_pairs.execute_pair(op, D, case, c19_pairs.attempt_shape)
+        print("right operand class:", rcls[0], "dispatches to:", impl_of(op, case["op"], rcls[1]))
     else:
         impl, ref = execute(op, D, case)
     print("class:", type(op).__name__, "shape:", list(D.shape))
